@@ -1,13 +1,29 @@
-// globals: lists every instruction of the package (in its current working tree) that writes to
-// package-level state outside package initialisation: stores through an address derived from a
-// package-level variable, map updates on a map loaded from one, and stores of whole globals.
-// Output: one line per finding "<function> <kind> <global> <position>", sorted. Used by C20 (T1).
+// globals: go/ssa fact extractor for C20 (T1). It loads the library (root package of the module in <dir>, built
+// with -tags=verif like the harness, plus every module-internal package the root package imports) and prints
+//
+//	global <name>\t<type>        every package-level variable of the analysed packages with its type
+//	internal <path>              module-internal packages in the import closure of the root package
+//	ignored <file>               non-test .go files of the root directory excluded by build constraints
+//	write <text>                 instructions (outside package initialisation) that write package-level state
+//	handover <text>              places where a reference into package-level state leaves the analysed code
+//	stateful <text>              package-level variables whose type (looked into across packages) holds state
+//
+// `write` lines carry positions and are expected to be empty; `handover` and `stateful` lines carry no positions,
+// are de-duplicated and sorted, and are meant to be PINNED by a theorem (any new entry must be looked at).
+//
+// The derivation tracker is intra-procedural with summaries computed to a fixed point: which parameters /
+// free variables a function writes through (any depth of calls), which roots its results point into, through
+// which parameters it hands references to foreign or dynamic code, and which struct fields hold references
+// loaded from package-level variables (field-based, flow-insensitive).
 package main
 
 import (
 	"fmt"
+	"go/token"
 	"go/types"
 	"os"
+	"path/filepath"
+	"regexp"
 	"sort"
 	"strings"
 
@@ -16,245 +32,911 @@ import (
 	"golang.org/x/tools/go/ssa/ssautil"
 )
 
-// rootGlobal follows address/pointer derivations back to a package-level variable
-var seen map[ssa.Value]bool
+// rootSet: *ssa.Global, *ssa.Parameter or *ssa.FreeVar a value may point into / be derived from
+type rootSet map[ssa.Value]bool
 
-func rootGlobalTop(v ssa.Value) *ssa.Global {
-	seen = map[ssa.Value]bool{}
-	g, _ := rootGlobal(v, 0).(*ssa.Global)
-	return g
+type analysis struct {
+	prog      *ssa.Program
+	dir       string
+	modPath   string
+	rootTypes *types.Package
+	analysed  map[*ssa.Package]bool
+	fns       []*ssa.Function
+	fnSet     map[*ssa.Function]bool
+	sites     map[*ssa.Function][]*ssa.MakeClosure // where closures of a function are made
+	allocSt   map[*ssa.Alloc][]*ssa.Store          // stores into (parts of) a local variable
+	// summaries (fixed point)
+	sharedFields  map[string]map[*ssa.Global]bool           // "Struct.field" -> globals whose memory the field may reference
+	returnsShared map[*ssa.Function]rootSet                 // roots the results may point into
+	writesVia     map[*ssa.Function]map[int]bool            // parameter (or len(Params)+k: free variable k) written through
+	handsVia      map[*ssa.Function]map[int]map[string]bool // parameter handed to foreign / dynamic code: descriptions
+	escapeMemo    map[*ssa.Function]bool
+	skipMemo      map[*ssa.Function]bool
 }
 
-// rootParamTop: the parameter (or free variable) an address is derived from, if any
-func rootParamTop(v ssa.Value) *ssa.Parameter {
-	seen = map[ssa.Value]bool{}
-	p, _ := rootGlobal(v, 0).(*ssa.Parameter)
-	return p
-}
+var initNumbered = regexp.MustCompile(`^init#\d+$`)
 
-func rootGlobal(v ssa.Value, depth int) ssa.Value {
-	if depth > 40 || v == nil || seen[v] {
-		return nil
+// ---------- types ----------
+
+func pointerLike(t types.Type) bool { return pointerLike1(t, map[types.Type]bool{}) }
+
+func pointerLike1(t types.Type, seen map[types.Type]bool) bool {
+	if t == nil || seen[t] {
+		return false
 	}
-	seen[v] = true
-	switch x := v.(type) {
-	case *ssa.Global:
-		return x
-	case *ssa.Parameter:
-		return x
-	case *ssa.FieldAddr:
-		return rootGlobal(x.X, depth+1)
-	case *ssa.IndexAddr:
-		return rootGlobal(x.X, depth+1)
-	case *ssa.UnOp: // *g : a pointer / slice / map loaded from a global
-		return rootGlobal(x.X, depth+1)
-	case *ssa.Field:
-		return rootGlobal(x.X, depth+1)
-	case *ssa.Slice:
-		return rootGlobal(x.X, depth+1)
-	case *ssa.ChangeType:
-		return rootGlobal(x.X, depth+1)
-	case *ssa.Convert:
-		return rootGlobal(x.X, depth+1)
-	case *ssa.MakeInterface:
-		return rootGlobal(x.X, depth+1)
-	case *ssa.Phi:
-		for _, e := range x.Edges {
-			if g := rootGlobal(e, depth+1); g != nil {
-				return g
+	seen[t] = true
+	switch x := t.(type) {
+	case *types.Named:
+		return pointerLike1(x.Underlying(), seen)
+	case *types.Alias:
+		return pointerLike1(types.Unalias(x), seen)
+	case *types.Pointer, *types.Slice, *types.Map, *types.Chan, *types.Signature, *types.Interface, *types.TypeParam:
+		return true
+	case *types.Basic:
+		return x.Kind() == types.UnsafePointer
+	case *types.Array:
+		return pointerLike1(x.Elem(), seen)
+	case *types.Struct:
+		for i := 0; i < x.NumFields(); i++ {
+			if pointerLike1(x.Field(i).Type(), seen) {
+				return true
 			}
 		}
-		return nil
-	case *ssa.Lookup:
-		return rootGlobal(x.X, depth+1)
-	case *ssa.Extract:
-		return rootGlobal(x.Tuple, depth+1)
-	case *ssa.Call:
-		// a method called on a global that returns interior pointers (e.g. BiMap.Get) is not followed
-		return nil
+	case *types.Tuple:
+		for i := 0; i < x.Len(); i++ {
+			if pointerLike1(x.At(i).Type(), seen) {
+				return true
+			}
+		}
+	}
+	return false
+}
+
+func addressLike(t types.Type) bool { // pointerLike or an integer that may carry an address
+	if pointerLike(t) {
+		return true
+	}
+	if b, ok := t.Underlying().(*types.Basic); ok {
+		return b.Kind() == types.Uintptr
+	}
+	return false
+}
+
+func (a *analysis) typeString(t types.Type) string {
+	return types.TypeString(t, types.RelativeTo(a.rootTypes))
+}
+
+// ---------- functions ----------
+
+func top(fn *ssa.Function) *ssa.Function {
+	for fn.Parent() != nil {
+		fn = fn.Parent()
+	}
+	return fn
+}
+
+func (a *analysis) pkgOf(fn *ssa.Function) *ssa.Package {
+	t := top(fn)
+	if t.Pkg != nil {
+		return t.Pkg
+	}
+	if o := t.Origin(); o != nil && o.Pkg != nil {
+		return o.Pkg
+	}
+	if obj := t.Object(); obj != nil && obj.Pkg() != nil { // wrappers, thunks, bound methods
+		return a.prog.Package(obj.Pkg())
 	}
 	return nil
 }
+
+func (a *analysis) isAnalysed(fn *ssa.Function) bool {
+	p := a.pkgOf(fn)
+	return p != nil && a.analysed[p]
+}
+
+func isPkgInit(fn *ssa.Function) bool {
+	return fn.Parent() == nil && fn.Signature.Recv() == nil && (fn.Name() == "init" || initNumbered.MatchString(fn.Name()))
+}
+
+// escapes: does the anonymous function fn outlive the call of its parent that creates it (stored, returned,
+// passed on, started with go, bound into another closure)? Only an immediate call / defer does not escape.
+func (a *analysis) escapes(fn *ssa.Function) bool {
+	if v, ok := a.escapeMemo[fn]; ok {
+		return v
+	}
+	res := false
+	p := fn.Parent()
+	if p != nil {
+		isIt := func(v ssa.Value) bool {
+			if v == fn {
+				return true
+			}
+			if mc, ok := v.(*ssa.MakeClosure); ok && mc.Fn == fn {
+				return true
+			}
+			return false
+		}
+		var ops []*ssa.Value
+		for _, b := range p.Blocks {
+			for _, ins := range b.Instrs {
+				if _, ok := ins.(*ssa.MakeClosure); ok {
+					continue // the creation itself
+				}
+				if _, ok := ins.(*ssa.DebugRef); ok {
+					continue
+				}
+				ops = ins.Operands(ops[:0])
+				for _, op := range ops {
+					if op == nil || *op == nil || !isIt(*op) {
+						continue
+					}
+					ok := false
+					switch c := ins.(type) {
+					case *ssa.Call:
+						ok = isIt(c.Call.Value) && !argsHave(c.Call.Args, isIt)
+					case *ssa.Defer:
+						ok = isIt(c.Call.Value) && !argsHave(c.Call.Args, isIt)
+					}
+					if !ok {
+						res = true
+					}
+				}
+			}
+		}
+	}
+	a.escapeMemo[fn] = res
+	return res
+}
+
+// hand records that fn hands its parameter / free variable idx on as described; reports whether that is new
+func (a *analysis) hand(fn *ssa.Function, idx int, desc string) bool {
+	if a.handsVia[fn] == nil {
+		a.handsVia[fn] = map[int]map[string]bool{}
+	}
+	if a.handsVia[fn][idx] == nil {
+		a.handsVia[fn][idx] = map[string]bool{}
+	}
+	if a.handsVia[fn][idx][desc] {
+		return false
+	}
+	a.handsVia[fn][idx][desc] = true
+	return true
+}
+
+func argsHave(args []ssa.Value, f func(ssa.Value) bool) bool {
+	for _, x := range args {
+		if f(x) {
+			return true
+		}
+	}
+	return false
+}
+
+// skipped: the real package initialiser and the anonymous functions under it that cannot run after it
+func (a *analysis) skipped(fn *ssa.Function) bool {
+	if v, ok := a.skipMemo[fn]; ok {
+		return v
+	}
+	res := false
+	if fn.Parent() == nil {
+		res = isPkgInit(fn)
+	} else if isPkgInit(top(fn)) {
+		res = true
+		for f := fn; f.Parent() != nil; f = f.Parent() {
+			if a.escapes(f) {
+				res = false
+				break
+			}
+		}
+	}
+	a.skipMemo[fn] = res
+	return res
+}
+
+func static(com *ssa.CallCommon) *ssa.Function {
+	if com.IsInvoke() {
+		return nil
+	}
+	v := com.Value
+	for {
+		if ct, ok := v.(*ssa.ChangeType); ok {
+			v = ct.X
+			continue
+		}
+		break
+	}
+	switch f := v.(type) {
+	case *ssa.Function:
+		return f
+	case *ssa.MakeClosure:
+		if g, ok := f.Fn.(*ssa.Function); ok {
+			return g
+		}
+	}
+	return nil
+}
+
+func closureOf(com *ssa.CallCommon) *ssa.MakeClosure {
+	v := com.Value
+	for {
+		if ct, ok := v.(*ssa.ChangeType); ok {
+			v = ct.X
+			continue
+		}
+		break
+	}
+	mc, _ := v.(*ssa.MakeClosure)
+	return mc
+}
+
+// ---------- the derivation tracker ----------
+
+type walker struct {
+	a     *analysis
+	out   rootSet
+	seenV map[ssa.Value]bool // values walked
+	seenC map[ssa.Value]bool // addresses whose content was taken
+}
+
+func (a *analysis) reach(v ssa.Value) rootSet {
+	w := &walker{a: a, out: rootSet{}, seenV: map[ssa.Value]bool{}, seenC: map[ssa.Value]bool{}}
+	w.walk(v)
+	return w.out
+}
+
+// argReach: what a callee can reach through an argument: the argument itself and, when it is the address of a
+// local variable, what that variable holds
+func (a *analysis) argReach(v ssa.Value) rootSet {
+	w := &walker{a: a, out: rootSet{}, seenV: map[ssa.Value]bool{}, seenC: map[ssa.Value]bool{}}
+	w.walk(v)
+	if _, ok := inPlaceBase(v).(*ssa.Alloc); ok {
+		w.content(v)
+	}
+	return w.out
+}
+
+// inPlaceBase strips field / array-element selections that stay inside the same variable (no load)
+func inPlaceBase(v ssa.Value) ssa.Value {
+	for {
+		switch x := v.(type) {
+		case *ssa.FieldAddr:
+			v = x.X
+			continue
+		case *ssa.IndexAddr:
+			if _, isPtr := x.X.Type().Underlying().(*types.Pointer); isPtr {
+				v = x.X
+				continue
+			}
+		}
+		return v
+	}
+}
+
+func fieldKey(a *analysis, x ssa.Value, field int) string {
+	t := x.Type()
+	if p, ok := t.Underlying().(*types.Pointer); ok {
+		t = p.Elem()
+	}
+	st, ok := t.Underlying().(*types.Struct)
+	if !ok || field >= st.NumFields() {
+		return ""
+	}
+	return a.typeString(t) + "." + st.Field(field).Name()
+}
+
+func (w *walker) addField(key string) {
+	for g := range w.a.sharedFields[key] {
+		w.out[g] = true
+	}
+}
+
+// content: what the memory at address addr may reference
+func (w *walker) content(addr ssa.Value) {
+	if addr == nil || w.seenC[addr] {
+		return
+	}
+	w.seenC[addr] = true
+	v := addr
+	for {
+		switch x := v.(type) {
+		case *ssa.FieldAddr:
+			w.addField(fieldKey(w.a, x.X, x.Field))
+			v = x.X
+			continue
+		case *ssa.IndexAddr:
+			if _, isPtr := x.X.Type().Underlying().(*types.Pointer); isPtr {
+				v = x.X
+				continue
+			}
+		}
+		break
+	}
+	switch b := v.(type) {
+	case *ssa.Alloc:
+		for _, st := range w.a.allocSt[b] {
+			if pointerLike(st.Val.Type()) {
+				w.walk(st.Val)
+			}
+		}
+	case *ssa.FreeVar:
+		fn := b.Parent()
+		for k, fv := range fn.FreeVars {
+			if fv == b {
+				for _, mc := range w.a.sites[fn] {
+					if k < len(mc.Bindings) {
+						w.content(mc.Bindings[k])
+					}
+				}
+			}
+		}
+	case *ssa.Phi:
+		for _, e := range b.Edges {
+			w.content(e)
+		}
+	}
+}
+
+func (w *walker) walk(v ssa.Value) {
+	if v == nil || w.seenV[v] {
+		return
+	}
+	w.seenV[v] = true
+	switch x := v.(type) {
+	case *ssa.Global:
+		w.out[x] = true
+	case *ssa.Parameter:
+		w.out[x] = true
+	case *ssa.FreeVar:
+		w.out[x] = true
+		fn := x.Parent()
+		for k, fv := range fn.FreeVars {
+			if fv == x {
+				for _, mc := range w.a.sites[fn] {
+					if k < len(mc.Bindings) {
+						w.walk(mc.Bindings[k])
+					}
+				}
+			}
+		}
+	case *ssa.Alloc:
+		// the address of a local variable points into no package-level memory
+	case *ssa.FieldAddr:
+		w.walk(x.X)
+	case *ssa.IndexAddr:
+		w.walk(x.X)
+	case *ssa.UnOp:
+		switch x.Op {
+		case token.MUL:
+			if !addressLike(x.Type()) {
+				return
+			}
+			w.walk(x.X)
+			w.content(x.X)
+		case token.ARROW:
+		default:
+		}
+	case *ssa.Field:
+		w.walk(x.X)
+		w.addField(fieldKey(w.a, x.X, x.Field))
+	case *ssa.Index:
+		w.walk(x.X)
+	case *ssa.Lookup:
+		w.walk(x.X)
+	case *ssa.Slice:
+		w.walk(x.X)
+	case *ssa.ChangeType:
+		w.walk(x.X)
+	case *ssa.Convert:
+		w.walk(x.X)
+	case *ssa.MultiConvert:
+		w.walk(x.X)
+	case *ssa.MakeInterface:
+		w.walk(x.X)
+	case *ssa.ChangeInterface:
+		w.walk(x.X)
+	case *ssa.SliceToArrayPointer:
+		w.walk(x.X)
+	case *ssa.TypeAssert:
+		w.walk(x.X)
+	case *ssa.Extract:
+		w.walk(x.Tuple)
+	case *ssa.Next:
+		w.walk(x.Iter)
+	case *ssa.Range:
+		w.walk(x.X)
+	case *ssa.Phi:
+		for _, e := range x.Edges {
+			w.walk(e)
+		}
+	case *ssa.BinOp:
+		if addressLike(x.Type()) {
+			w.walk(x.X)
+			w.walk(x.Y)
+		}
+	case *ssa.MakeClosure:
+		for _, b := range x.Bindings {
+			w.walk(b)
+		}
+	case *ssa.Call:
+		w.call(x)
+	}
+}
+
+func (w *walker) call(x *ssa.Call) {
+	if !addressLike(x.Type()) {
+		return
+	}
+	com := x.Common()
+	if b, ok := com.Value.(*ssa.Builtin); ok {
+		switch b.Name() {
+		case "append":
+			// the result shares the backing array of the first argument; the appended elements are copies
+			// (references among them are reported as a hand-over "appended", not followed)
+			if len(com.Args) > 0 {
+				w.walk(com.Args[0])
+			}
+		case "Add", "Slice", "SliceData", "StringData", "String", "min", "max":
+			for _, arg := range com.Args {
+				w.walk(arg)
+			}
+		}
+		return
+	}
+	callee := static(com)
+	if callee != nil && w.a.isAnalysed(callee) {
+		mc := closureOf(com)
+		for r := range w.a.returnsShared[callee] {
+			switch r := r.(type) {
+			case *ssa.Global:
+				w.out[r] = true
+			case *ssa.Parameter:
+				for i, p := range callee.Params {
+					if p == r && i < len(com.Args) {
+						w.walk(com.Args[i])
+						if _, ok := inPlaceBase(com.Args[i]).(*ssa.Alloc); ok {
+							w.content(com.Args[i])
+						}
+					}
+				}
+			case *ssa.FreeVar:
+				if mc != nil {
+					for k, fv := range callee.FreeVars {
+						if fv == r && k < len(mc.Bindings) {
+							w.walk(mc.Bindings[k])
+							w.content(mc.Bindings[k])
+						}
+					}
+				}
+			}
+		}
+		return
+	}
+	if callee == nil {
+		// the result of a function value / interface method kept in package-level state belongs to that state
+		w.walk(com.Value)
+	}
+}
+
+// ---------- helpers on root sets ----------
+
+func globalsOf(rs rootSet) []*ssa.Global {
+	var out []*ssa.Global
+	for r := range rs {
+		if g, ok := r.(*ssa.Global); ok && !strings.HasPrefix(g.Name(), "init$") {
+			out = append(out, g)
+		}
+	}
+	sort.Slice(out, func(i, j int) bool { return out[i].String() < out[j].String() })
+	return out
+}
+
+func (a *analysis) globalName(g *ssa.Global) string {
+	if g.Pkg != nil && g.Pkg.Pkg == a.rootTypes {
+		return g.Name()
+	}
+	if g.Pkg != nil {
+		return a.relPkg(g.Pkg.Pkg.Path()) + "." + g.Name()
+	}
+	return g.Name()
+}
+
+func (a *analysis) relPkg(path string) string {
+	return strings.TrimPrefix(path, a.modPath+"/")
+}
+
+// paramIndex: index of a parameter / free variable of fn in the summaries
+func paramIndex(fn *ssa.Function, r ssa.Value) (int, bool) {
+	switch r := r.(type) {
+	case *ssa.Parameter:
+		for i, p := range fn.Params {
+			if p == r {
+				return i, true
+			}
+		}
+	case *ssa.FreeVar:
+		for k, fv := range fn.FreeVars {
+			if fv == r {
+				return len(fn.Params) + k, true
+			}
+		}
+	}
+	return 0, false
+}
+
+// actual: the value a call passes for summary index idx of callee
+func actual(com *ssa.CallCommon, callee *ssa.Function, idx int) ssa.Value {
+	if idx < len(callee.Params) {
+		if idx < len(com.Args) {
+			return com.Args[idx]
+		}
+		return nil
+	}
+	if mc := closureOf(com); mc != nil {
+		k := idx - len(callee.Params)
+		if k < len(mc.Bindings) {
+			return mc.Bindings[k]
+		}
+	}
+	return nil
+}
+
+var mutators = map[string]bool{"Set": true, "Store": true, "Delete": true}
+
+// foreign functions that set process-wide state whatever their arguments
+func denied(callee *ssa.Function) bool {
+	if callee.Pkg == nil {
+		return false
+	}
+	p, n := callee.Pkg.Pkg.Path(), callee.Name()
+	switch p {
+	case "log":
+		return strings.HasPrefix(n, "Set") && callee.Signature.Recv() == nil
+	case "math/rand", "math/rand/v2":
+		return n == "Seed" && callee.Signature.Recv() == nil
+	case "os":
+		return n == "Setenv" || n == "Unsetenv" || n == "Clearenv" || n == "Chdir"
+	case "flag":
+		return n == "Set" && callee.Signature.Recv() == nil
+	}
+	return false
+}
+
+// writeTargets: the values an instruction writes through (kind, target)
+type writeT struct {
+	kind string
+	v    ssa.Value
+	arg  bool // the target is an argument (argReach applies)
+}
+
+func writeTargets(ins ssa.Instruction) []writeT {
+	switch x := ins.(type) {
+	case *ssa.Store:
+		return []writeT{{"store", x.Addr, false}}
+	case *ssa.MapUpdate:
+		return []writeT{{"mapupdate", x.Map, false}}
+	case ssa.CallInstruction:
+		com := x.Common()
+		if b, ok := com.Value.(*ssa.Builtin); ok && len(com.Args) > 0 {
+			switch b.Name() {
+			case "copy", "append", "delete", "clear":
+				return []writeT{{"builtin-write(" + b.Name() + ")", com.Args[0], true}}
+			}
+			return nil
+		}
+		if callee := static(com); callee != nil && callee.Signature.Recv() != nil && mutators[callee.Name()] && len(com.Args) > 0 {
+			return []writeT{{"mutating-method(" + callee.Name() + ")", com.Args[0], true}}
+		}
+		if com.IsInvoke() && mutators[com.Method.Name()] {
+			return []writeT{{"mutating-method(" + com.Method.Name() + ")", com.Value, true}}
+		}
+	}
+	return nil
+}
+
+// isPointerLikeValue: a value that can carry a reference (an interface made from a non-reference does not)
+func isPointerLikeValue(v ssa.Value) bool {
+	if mi, ok := v.(*ssa.MakeInterface); ok {
+		return pointerLike(mi.X.Type())
+	}
+	return pointerLike(v.Type())
+}
+
+// ---------- main ----------
 
 func main() {
 	dir := "/repo"
 	if len(os.Args) > 1 {
 		dir = os.Args[1]
 	}
-	cfg := &packages.Config{Mode: packages.NeedName | packages.NeedFiles | packages.NeedCompiledGoFiles | packages.NeedImports | packages.NeedDeps | packages.NeedTypes | packages.NeedSyntax | packages.NeedTypesInfo | packages.NeedTypesSizes, Dir: dir, Tests: false}
-	pkgs, err := packages.Load(cfg, ".")
-	if err != nil || len(pkgs) == 0 || len(pkgs[0].Errors) > 0 {
+	if abs, err := filepath.Abs(dir); err == nil {
+		dir = abs
+	}
+	cfg := &packages.Config{
+		Mode: packages.NeedName | packages.NeedFiles | packages.NeedCompiledGoFiles | packages.NeedImports | packages.NeedDeps |
+			packages.NeedTypes | packages.NeedSyntax | packages.NeedTypesInfo | packages.NeedTypesSizes | packages.NeedModule,
+		Dir: dir, Tests: false, BuildFlags: []string{"-tags=verif"},
+	}
+	pkgs, err := packages.Load(cfg, "./...")
+	if err != nil || len(pkgs) == 0 {
 		fmt.Fprintln(os.Stderr, "load failed:", err)
-		if len(pkgs) > 0 {
-			for _, e := range pkgs[0].Errors {
-				fmt.Fprintln(os.Stderr, e)
-			}
-		}
 		os.Exit(2)
 	}
-	prog, spkgs := ssautil.Packages(pkgs, ssa.InstantiateGenerics)
-	target := spkgs[0]
-	target.Build()
-	var out []string
-	var globals []string
-	for _, m := range target.Members {
-		if g, ok := m.(*ssa.Global); ok && !strings.HasPrefix(g.Name(), "init$") {
-			globals = append(globals, g.Name())
+	var root *packages.Package
+	for _, p := range pkgs {
+		if p.Module != nil && p.PkgPath == p.Module.Path {
+			root = p
 		}
 	}
-	sort.Strings(globals)
-	// all functions of the target package: members, methods, anonymous functions
-	fns := map[*ssa.Function]bool{}
+	if root == nil {
+		fmt.Fprintln(os.Stderr, "load failed: no root package of the module in", dir)
+		os.Exit(2)
+	}
+	bad := false
+	packages.Visit([]*packages.Package{root}, nil, func(p *packages.Package) {
+		if p == root || (root.Module != nil && strings.HasPrefix(p.PkgPath, root.Module.Path+"/")) {
+			for _, e := range p.Errors {
+				fmt.Fprintln(os.Stderr, e)
+				bad = true
+			}
+		}
+	})
+	if bad {
+		fmt.Fprintln(os.Stderr, "load failed: errors in the analysed packages")
+		os.Exit(2)
+	}
+	modPath := root.Module.Path
+	// module-internal packages in the import closure of the root package
+	var internal []*packages.Package
+	packages.Visit([]*packages.Package{root}, nil, func(p *packages.Package) {
+		if p != root && strings.HasPrefix(p.PkgPath, modPath+"/") {
+			internal = append(internal, p)
+		}
+	})
+	sort.Slice(internal, func(i, j int) bool { return internal[i].PkgPath < internal[j].PkgPath })
+
+	prog, _ := ssautil.AllPackages(pkgs, ssa.InstantiateGenerics)
+	prog.Build()
+	a := &analysis{prog: prog, dir: dir, modPath: modPath, rootTypes: root.Types, analysed: map[*ssa.Package]bool{},
+		fnSet: map[*ssa.Function]bool{}, sites: map[*ssa.Function][]*ssa.MakeClosure{}, allocSt: map[*ssa.Alloc][]*ssa.Store{},
+		sharedFields: map[string]map[*ssa.Global]bool{}, returnsShared: map[*ssa.Function]rootSet{},
+		writesVia: map[*ssa.Function]map[int]bool{}, handsVia: map[*ssa.Function]map[int]map[string]bool{},
+		escapeMemo: map[*ssa.Function]bool{}, skipMemo: map[*ssa.Function]bool{}}
+	rootSSA := prog.Package(root.Types)
+	if rootSSA == nil {
+		fmt.Fprintln(os.Stderr, "load failed: no ssa package for the root package")
+		os.Exit(2)
+	}
+	a.analysed[rootSSA] = true
+	for _, p := range internal {
+		if sp := prog.Package(p.Types); sp != nil {
+			a.analysed[sp] = true
+		}
+	}
+
+	// ---- functions: everything the linker-style walk finds, plus members / methods / anonymous functions
 	var add func(f *ssa.Function)
 	add = func(f *ssa.Function) {
-		if f == nil || fns[f] {
+		if f == nil || a.fnSet[f] || f.Blocks == nil || !a.isAnalysed(f) {
 			return
 		}
-		fns[f] = true
-		for _, a := range f.AnonFuncs {
-			add(a)
+		a.fnSet[f] = true
+		for _, an := range f.AnonFuncs {
+			add(an)
 		}
 	}
-	for _, m := range target.Members {
-		switch x := m.(type) {
-		case *ssa.Function:
-			add(x)
-		case *ssa.Type:
-			for _, t := range []types.Type{x.Type(), types.NewPointer(x.Type())} {
-				ms := prog.MethodSets.MethodSet(t)
-				for i := 0; i < ms.Len(); i++ {
-					add(prog.MethodValue(ms.At(i)))
-				}
-			}
-		}
+	for f := range ssautil.AllFunctions(prog) {
+		add(f)
 	}
-	// one level of parameter passing: which parameters does each function store through?
-	storesVia := map[*ssa.Function]map[int]bool{}
-	for fn := range fns {
-		if fn.Blocks == nil {
-			continue
-		}
-		idx := map[*ssa.Parameter]int{}
-		for i, p := range fn.Params {
-			idx[p] = i
-		}
-		for _, b := range fn.Blocks {
-			for _, ins := range b.Instrs {
-				var addr ssa.Value
-				switch x := ins.(type) {
-				case *ssa.Store:
-					addr = x.Addr
-				case *ssa.MapUpdate:
-					addr = x.Map
-				}
-				if addr == nil {
-					continue
-				}
-				if p := rootParamTop(addr); p != nil {
-					if i, ok := idx[p]; ok {
-						if storesVia[fn] == nil {
-							storesVia[fn] = map[int]bool{}
-						}
-						storesVia[fn][i] = true
+	for sp := range a.analysed {
+		for _, m := range sp.Members {
+			switch x := m.(type) {
+			case *ssa.Function:
+				add(x)
+			case *ssa.Type:
+				for _, t := range []types.Type{x.Type(), types.NewPointer(x.Type())} {
+					ms := prog.MethodSets.MethodSet(t)
+					for i := 0; i < ms.Len(); i++ {
+						add(prog.MethodValue(ms.At(i)))
 					}
 				}
 			}
 		}
 	}
-	mutators := map[string]bool{"Set": true, "Store": true, "Delete": true}
-	for fn := range fns {
-		if fn.Pkg != target || fn.Blocks == nil {
-			continue
+	for f := range a.fnSet {
+		a.fns = append(a.fns, f)
+	}
+	sort.Slice(a.fns, func(i, j int) bool {
+		if a.fns[i].String() != a.fns[j].String() {
+			return a.fns[i].String() < a.fns[j].String()
 		}
-		name := fn.String()
-		// package initialisation legitimately fills the tables
-		if fn.Name() == "init" || strings.HasPrefix(fn.Name(), "init#") || (fn.Parent() != nil && strings.HasPrefix(fn.Parent().Name(), "init")) {
-			continue
-		}
+		return a.fns[i].Pos() < a.fns[j].Pos()
+	})
+	for _, fn := range a.fns {
 		for _, b := range fn.Blocks {
 			for _, ins := range b.Instrs {
-				pos := prog.Fset.Position(ins.Pos())
-				where := fmt.Sprintf("%s:%d", strings.TrimPrefix(pos.Filename, dir+"/"), pos.Line)
 				switch x := ins.(type) {
+				case *ssa.MakeClosure:
+					if g, ok := x.Fn.(*ssa.Function); ok {
+						a.sites[g] = append(a.sites[g], x)
+					}
 				case *ssa.Store:
-					if g := rootGlobalTop(x.Addr); g != nil && g.Pkg == target {
-						out = append(out, fmt.Sprintf("%s store %s %s", name, g.Name(), where))
+					if al, ok := inPlaceBase(x.Addr).(*ssa.Alloc); ok {
+						a.allocSt[al] = append(a.allocSt[al], x)
 					}
-				case *ssa.MapUpdate:
-					if g := rootGlobalTop(x.Map); g != nil && g.Pkg == target {
-						out = append(out, fmt.Sprintf("%s mapupdate %s %s", name, g.Name(), where))
-					}
-				case ssa.CallInstruction:
-					com := x.Common()
-					if callee := com.StaticCallee(); callee != nil {
-						args := com.Args
-						for i, a := range args {
-							g := rootGlobalTop(a)
-							if g == nil || g.Pkg != target {
+				}
+			}
+		}
+	}
+
+	// ---- summaries to a fixed point
+	for iter := 0; iter < 40; iter++ {
+		changed := false
+		for _, fn := range a.fns {
+			for _, b := range fn.Blocks {
+				for _, ins := range b.Instrs {
+					// fields that hold references loaded from package-level variables
+					if st, ok := ins.(*ssa.Store); ok && isPointerLikeValue(st.Val) {
+						var keys []string
+						v := st.Addr
+						for {
+							if fa, ok := v.(*ssa.FieldAddr); ok {
+								keys = append(keys, fieldKey(a, fa.X, fa.Field))
+								v = fa.X
 								continue
 							}
-							if storesVia[callee][i] {
-								out = append(out, fmt.Sprintf("%s call-stores-through-arg %s %s->%s", name, g.Name(), where, callee.Name()))
+							if ia, ok := v.(*ssa.IndexAddr); ok {
+								if _, isPtr := ia.X.Type().Underlying().(*types.Pointer); isPtr {
+									v = ia.X
+									continue
+								}
 							}
-							// mutating methods of library containers (astikit.BiMap.Set, sync.Map.Store …) on a global receiver
-							if i == 0 && callee.Signature.Recv() != nil && mutators[callee.Name()] {
-								out = append(out, fmt.Sprintf("%s mutating-method %s %s->%s", name, g.Name(), where, callee.Name()))
+							break
+						}
+						if len(keys) > 0 && !a.skipped(fn) {
+							valRoots := a.reach(st.Val)
+							for r := range valRoots {
+								if i, ok := paramIndex(fn, r); ok {
+									for _, k := range keys {
+										if k != "" && a.hand(fn, i, "stored into "+k) {
+											changed = true
+										}
+									}
+								}
+							}
+							for _, g := range globalsOf(valRoots) {
+								for _, k := range keys {
+									if k == "" {
+										continue
+									}
+									if a.sharedFields[k] == nil {
+										a.sharedFields[k] = map[*ssa.Global]bool{}
+									}
+									if !a.sharedFields[k][g] {
+										a.sharedFields[k][g] = true
+										changed = true
+									}
+								}
+							}
+						}
+					}
+					// results
+					if ret, ok := ins.(*ssa.Return); ok {
+						for _, r := range ret.Results {
+							if !isPointerLikeValue(r) {
+								continue
+							}
+							for root := range a.reach(r) {
+								if g, ok := root.(*ssa.Global); ok && strings.HasPrefix(g.Name(), "init$") {
+									continue
+								}
+								if a.returnsShared[fn] == nil {
+									a.returnsShared[fn] = rootSet{}
+								}
+								if !a.returnsShared[fn][root] {
+									a.returnsShared[fn][root] = true
+									changed = true
+								}
+							}
+						}
+					}
+					// writes through parameters / free variables
+					mark := func(rs rootSet) {
+						for r := range rs {
+							if i, ok := paramIndex(fn, r); ok {
+								if a.writesVia[fn] == nil {
+									a.writesVia[fn] = map[int]bool{}
+								}
+								if !a.writesVia[fn][i] {
+									a.writesVia[fn][i] = true
+									changed = true
+								}
+							}
+						}
+					}
+					for _, wt := range writeTargets(ins) {
+						if wt.arg {
+							mark(a.argReach(wt.v))
+						} else {
+							mark(a.reach(wt.v))
+						}
+					}
+					if ci, ok := ins.(ssa.CallInstruction); ok {
+						com := ci.Common()
+						callee := static(com)
+						hand := func(v ssa.Value, desc string) {
+							if v == nil || !isPointerLikeValue(v) {
+								return
+							}
+							rs := a.argReach(v)
+							for r := range rs {
+								if i, ok := paramIndex(fn, r); ok {
+									if a.hand(fn, i, desc) {
+										changed = true
+									}
+								}
+							}
+							// a callee that keeps its argument in a field: the field now references what the argument reaches
+							if k := strings.TrimPrefix(desc, "stored into "); k != desc && !a.skipped(fn) {
+								for _, g := range globalsOf(rs) {
+									if a.sharedFields[k] == nil {
+										a.sharedFields[k] = map[*ssa.Global]bool{}
+									}
+									if !a.sharedFields[k][g] {
+										a.sharedFields[k][g] = true
+										changed = true
+									}
+								}
+							}
+						}
+						if _, isBuiltin := com.Value.(*ssa.Builtin); isBuiltin {
+							// handled by writeTargets
+						} else if callee != nil && a.isAnalysed(callee) {
+							for idx := range a.writesVia[callee] {
+								if v := actual(com, callee, idx); v != nil {
+									mark(a.argReach(v))
+								}
+							}
+							for idx, descs := range a.handsVia[callee] {
+								if v := actual(com, callee, idx); v != nil {
+									for d := range descs {
+										hand(v, d)
+									}
+								}
+							}
+						} else if callee != nil {
+							for _, arg := range com.Args {
+								hand(arg, "foreign "+callee.String())
+							}
+						} else {
+							if com.IsInvoke() {
+								hand(com.Value, "dynamic invoke "+com.Method.Name())
+							} else {
+								hand(com.Value, "dynamic call")
+							}
+							for _, arg := range com.Args {
+								hand(arg, "dynamic arg")
 							}
 						}
 					}
 				}
 			}
 		}
-	}
-	// state that needs no store instruction in the package to be mutable and shared:
-	// (1) a package-level variable whose type holds a synchronisation primitive or a pool (sync.*, atomic.*, channels):
-	//     such a variable exists to be mutated by concurrent callers;
-	// (2) the address of a package-level variable handed to code the analysis does not see into - a dynamic call
-	//     (function value, interface method), a function outside the package, a closure capture, a store of the address
-	//     into the heap, a return value: whoever holds the address can write through it.
-	var stateful func(t types.Type, depth int) string
-	stateful = func(t types.Type, depth int) string {
-		if depth > 4 || t == nil {
-			return ""
+		if !changed {
+			break
 		}
-		switch x := t.(type) {
-		case *types.Named:
-			if o := x.Obj(); o != nil && o.Pkg() != nil && (o.Pkg().Path() == "sync" || o.Pkg().Path() == "sync/atomic") {
-				return o.Pkg().Path() + "." + o.Name()
-			}
-			// the internals of other packages' types are their own concern (strings.Replacer, regexp.Regexp … are
-			// documented safe for concurrent use); only the package's own types are looked into
-			if o := x.Obj(); o == nil || o.Pkg() == nil || o.Pkg() != pkgs[0].Types {
-				return ""
-			}
-			return stateful(x.Underlying(), depth+1)
-		case *types.Pointer:
-			return stateful(x.Elem(), depth+1)
-		case *types.Slice:
-			return stateful(x.Elem(), depth+1)
-		case *types.Array:
-			return stateful(x.Elem(), depth+1)
-		case *types.Map:
-			if r := stateful(x.Key(), depth+1); r != "" {
-				return r
-			}
-			return stateful(x.Elem(), depth+1)
-		case *types.Chan:
-			return "chan"
-		case *types.Struct:
-			for i := 0; i < x.NumFields(); i++ {
-				if r := stateful(x.Field(i).Type(), depth+1); r != "" {
-					return r
-				}
-			}
+		if iter == 39 {
+			fmt.Fprintln(os.Stderr, "summaries did not reach a fixed point in 40 rounds")
+			os.Exit(2)
 		}
-		return ""
 	}
-	for _, m := range target.Members {
-		if g, ok := m.(*ssa.Global); ok && !strings.HasPrefix(g.Name(), "init$") {
-			if r := stateful(g.Type(), 0); r != "" {
-				out = append(out, fmt.Sprintf("%s stateful-type %s %s", "package", g.Name(), r))
-			}
+
+	// ---- reports
+	var writes, handovers, statefulL []string
+	hset := map[string]bool{}
+	handover := func(s string) {
+		if !hset[s] {
+			hset[s] = true
+			handovers = append(handovers, s)
 		}
 	}
 	// addrOf: is v the address of (part of) a package-level variable, without a load in between?
@@ -269,68 +951,367 @@ func main() {
 		case *ssa.FieldAddr:
 			return addrOf(x.X, depth+1)
 		case *ssa.IndexAddr:
-			// indexing a slice loaded from a global is a load; indexing an array global in place is not
 			if _, isPtr := x.X.Type().Underlying().(*types.Pointer); isPtr {
 				return addrOf(x.X, depth+1)
 			}
 			return nil
 		case *ssa.ChangeType:
 			return addrOf(x.X, depth+1)
+		case *ssa.Convert:
+			return addrOf(x.X, depth+1)
 		case *ssa.MakeInterface:
 			return addrOf(x.X, depth+1)
 		}
 		return nil
 	}
-	for fn := range fns {
-		if fn.Pkg != target || fn.Blocks == nil {
-			continue
-		}
-		if fn.Name() == "init" || strings.HasPrefix(fn.Name(), "init#") || (fn.Parent() != nil && strings.HasPrefix(fn.Parent().Name(), "init")) {
+	own := func(g *ssa.Global) bool { return g.Pkg != nil && a.analysed[g.Pkg] }
+	for _, fn := range a.fns {
+		if a.skipped(fn) {
 			continue
 		}
 		name := fn.String()
+		underInit := isPkgInit(top(fn))
+		exported := fn.Parent() == nil && fn.Object() != nil && fn.Object().Exported()
 		for _, b := range fn.Blocks {
 			for _, ins := range b.Instrs {
 				pos := prog.Fset.Position(ins.Pos())
 				where := fmt.Sprintf("%s:%d", strings.TrimPrefix(pos.Filename, dir+"/"), pos.Line)
-				report := func(kind string, v ssa.Value, extra string) {
-					if g := addrOf(v, 0); g != nil && g.Pkg == target {
-						out = append(out, fmt.Sprintf("%s %s %s %s%s", name, kind, g.Name(), where, extra))
+				// (1) writes
+				for _, wt := range writeTargets(ins) {
+					var rs rootSet
+					if wt.arg {
+						rs = a.argReach(wt.v)
+					} else {
+						rs = a.reach(wt.v)
 					}
+					for _, g := range globalsOf(rs) {
+						if own(g) {
+							writes = append(writes, fmt.Sprintf("%s %s %s %s", name, wt.kind, a.globalName(g), where))
+						} else {
+							writes = append(writes, fmt.Sprintf("%s foreign-global-%s %s %s", name, wt.kind, g.String(), where))
+						}
+					}
+					if underInit {
+						for r := range rs {
+							if fv, ok := r.(*ssa.FreeVar); ok {
+								writes = append(writes, fmt.Sprintf("%s captured-state-%s %s %s", name, wt.kind, fv.Name(), where))
+							}
+						}
+					}
+				}
+				reportAddr := func(kind string, v ssa.Value, extra string) bool {
+					if g := addrOf(v, 0); g != nil && own(g) {
+						writes = append(writes, fmt.Sprintf("%s %s %s %s%s", name, kind, a.globalName(g), where, extra))
+						return true
+					}
+					return false
+				}
+				// a reference (not the bare address) into package-level state handed on
+				shared := func(v ssa.Value) []*ssa.Global {
+					if v == nil || !isPointerLikeValue(v) || addrOf(v, 0) != nil {
+						return nil
+					}
+					var out []*ssa.Global
+					for _, g := range globalsOf(a.argReach(v)) {
+						if own(g) {
+							out = append(out, g)
+						}
+					}
+					return out
 				}
 				switch x := ins.(type) {
 				case *ssa.Store:
-					report("address-stored", x.Val, "")
+					if !reportAddr("address-stored", x.Val, "") {
+						base := inPlaceBase(x.Addr)
+						if al, ok := base.(*ssa.Alloc); !ok || al.Heap {
+							dest := "memory of " + a.typeString(x.Addr.Type())
+							if fa, ok := x.Addr.(*ssa.FieldAddr); ok {
+								dest = fieldKey(a, fa.X, fa.Field)
+							} else if ia, ok := x.Addr.(*ssa.IndexAddr); ok {
+								dest = "element of " + a.typeString(ia.X.Type())
+								if fa, ok := inPlaceBaseField(ia); ok {
+									dest = "element of " + fieldKey(a, fa.X, fa.Field)
+								}
+							}
+							for _, g := range shared(x.Val) {
+								handover(fmt.Sprintf("stored %s as %s into %s", a.globalName(g), a.typeString(x.Val.Type()), dest))
+							}
+						}
+					}
+				case *ssa.MapUpdate:
+					for _, g := range shared(x.Value) {
+						handover(fmt.Sprintf("stored %s as %s into element of %s", a.globalName(g), a.typeString(x.Value.Type()), a.typeString(x.Map.Type())))
+					}
 				case *ssa.Return:
 					for _, r := range x.Results {
-						report("address-returned", r, "")
+						if !reportAddr("address-returned", r, "") && exported && fn.Synthetic == "" {
+							for _, g := range shared(r) {
+								handover(fmt.Sprintf("returned %s %s", strings.TrimPrefix(name, a.modPath+"."), a.globalName(g)))
+							}
+						}
 					}
 				case *ssa.MakeClosure:
 					for _, bnd := range x.Bindings {
-						report("address-captured", bnd, "")
+						reportAddr("address-captured", bnd, "")
 					}
 				case *ssa.Send:
-					report("address-sent", x.X, "")
-				case ssa.CallInstruction:
-					com := x.Common()
-					callee := com.StaticCallee()
-					for _, a := range com.Args {
-						if callee == nil {
-							report("address-to-dynamic-call", a, "")
-						} else if callee.Pkg != target {
-							report("address-to-foreign-call", a, "->"+callee.String())
+					if !reportAddr("address-sent", x.X, "") {
+						for _, g := range shared(x.X) {
+							handover(fmt.Sprintf("sent %s", a.globalName(g)))
 						}
 					}
-					if com.IsInvoke() {
-						report("address-to-dynamic-call", com.Value, "")
+				case ssa.CallInstruction:
+					com := x.Common()
+					if bi, isBuiltin := com.Value.(*ssa.Builtin); isBuiltin {
+						for _, arg := range com.Args {
+							reportAddr("address-to-dynamic-call", arg, "")
+						}
+						if bi.Name() == "append" && len(com.Args) > 1 {
+							if sl, ok := com.Args[1].Type().Underlying().(*types.Slice); ok && pointerLike(sl.Elem()) {
+								for _, g := range shared(com.Args[1]) {
+									handover(fmt.Sprintf("appended %s as %s", a.globalName(g), a.typeString(sl.Elem())))
+								}
+							}
+						}
+						break
+					}
+					callee := static(com)
+					switch {
+					case callee != nil && a.isAnalysed(callee):
+						var idxs []int
+						for idx := range a.writesVia[callee] {
+							idxs = append(idxs, idx)
+						}
+						sort.Ints(idxs)
+						for _, idx := range idxs {
+							v := actual(com, callee, idx)
+							if v == nil {
+								continue
+							}
+							rs := a.argReach(v)
+							for _, g := range globalsOf(rs) {
+								if own(g) {
+									writes = append(writes, fmt.Sprintf("%s call-stores-through-arg %s %s->%s", name, a.globalName(g), where, callee.Name()))
+								} else {
+									writes = append(writes, fmt.Sprintf("%s foreign-global-call-stores-through-arg %s %s->%s", name, g.String(), where, callee.Name()))
+								}
+							}
+							if underInit {
+								for r := range rs {
+									if fv, ok := r.(*ssa.FreeVar); ok {
+										writes = append(writes, fmt.Sprintf("%s captured-state-call-stores-through-arg %s %s->%s", name, fv.Name(), where, callee.Name()))
+									}
+								}
+							}
+						}
+						for idx, descs := range a.handsVia[callee] {
+							v := actual(com, callee, idx)
+							for _, g := range shared(v) {
+								for d := range descs {
+									handover(fmt.Sprintf("%s <- %s (through %s)", d, a.globalName(g), callee.Name()))
+								}
+							}
+						}
+					case callee != nil:
+						if denied(callee) {
+							writes = append(writes, fmt.Sprintf("%s foreign-setter %s %s", name, callee.String(), where))
+						}
+						for _, arg := range com.Args {
+							if !reportAddr("address-to-foreign-call", arg, "->"+callee.String()) {
+								for _, g := range shared(arg) {
+									handover(fmt.Sprintf("foreign %s <- %s", callee.String(), a.globalName(g)))
+								}
+							}
+						}
+					default:
+						for _, arg := range com.Args {
+							if !reportAddr("address-to-dynamic-call", arg, "") {
+								for _, g := range shared(arg) {
+									handover(fmt.Sprintf("dynamic arg <- %s", a.globalName(g)))
+								}
+							}
+						}
+						if com.IsInvoke() {
+							if !reportAddr("address-to-dynamic-call", com.Value, "") {
+								for _, g := range shared(com.Value) {
+									handover(fmt.Sprintf("dynamic invoke %s <- %s", com.Method.Name(), a.globalName(g)))
+								}
+							}
+						} else {
+							for _, g := range shared(com.Value) {
+								handover(fmt.Sprintf("dynamic call <- %s", a.globalName(g)))
+							}
+						}
 					}
 				}
 			}
 		}
 	}
-	sort.Strings(out)
-	fmt.Printf("globals %d %s\n", len(globals), strings.Join(globals, ","))
-	for _, l := range out {
+
+	// ---- package-level variables, their types, and state held by their types
+	type gl struct{ name, typ string }
+	var globals []gl
+	var ssaGlobals []*ssa.Global
+	for sp := range a.analysed {
+		for _, m := range sp.Members {
+			if g, ok := m.(*ssa.Global); ok && !strings.HasPrefix(g.Name(), "init$") {
+				ssaGlobals = append(ssaGlobals, g)
+			}
+		}
+	}
+	sort.Slice(ssaGlobals, func(i, j int) bool { return a.globalName(ssaGlobals[i]) < a.globalName(ssaGlobals[j]) })
+	// strict: own types only, sync.* / sync/atomic.* / channels (as before, without the depth cut)
+	var strict func(t types.Type, seen map[types.Type]bool) string
+	strict = func(t types.Type, seen map[types.Type]bool) string {
+		if t == nil || seen[t] {
+			return ""
+		}
+		seen[t] = true
+		switch x := t.(type) {
+		case *types.Alias:
+			return strict(types.Unalias(x), seen)
+		case *types.Named:
+			if o := x.Obj(); o != nil && o.Pkg() != nil && (o.Pkg().Path() == "sync" || o.Pkg().Path() == "sync/atomic") {
+				return o.Pkg().Path() + "." + o.Name()
+			}
+			if o := x.Obj(); o == nil || o.Pkg() == nil || !a.analysed[prog.Package(o.Pkg())] {
+				return ""
+			}
+			return strict(x.Underlying(), seen)
+		case *types.Pointer:
+			return strict(x.Elem(), seen)
+		case *types.Slice:
+			return strict(x.Elem(), seen)
+		case *types.Array:
+			return strict(x.Elem(), seen)
+		case *types.Map:
+			if r := strict(x.Key(), seen); r != "" {
+				return r
+			}
+			return strict(x.Elem(), seen)
+		case *types.Chan:
+			return "chan"
+		case *types.Struct:
+			for i := 0; i < x.NumFields(); i++ {
+				if r := strict(x.Field(i).Type(), seen); r != "" {
+					return r
+				}
+			}
+		}
+		return ""
+	}
+	// loose: looks into the types of other packages too; function and interface types are state of unknown kind
+	var loose func(t types.Type, seen map[types.Type]bool) string
+	loose = func(t types.Type, seen map[types.Type]bool) string {
+		if t == nil || seen[t] {
+			return ""
+		}
+		seen[t] = true
+		switch x := t.(type) {
+		case *types.Alias:
+			return loose(types.Unalias(x), seen)
+		case *types.Named:
+			if o := x.Obj(); o != nil && o.Pkg() != nil && (o.Pkg().Path() == "sync" || o.Pkg().Path() == "sync/atomic") {
+				return o.Pkg().Path() + "." + o.Name()
+			}
+			if r := loose(x.Underlying(), seen); r != "" {
+				if o := x.Obj(); o != nil && o.Pkg() != nil && !a.analysed[prog.Package(o.Pkg())] && !strings.Contains(r, " in ") {
+					return r + " in " + o.Pkg().Path() + "." + o.Name()
+				}
+				return r
+			}
+		case *types.Pointer:
+			return loose(x.Elem(), seen)
+		case *types.Slice:
+			return loose(x.Elem(), seen)
+		case *types.Array:
+			return loose(x.Elem(), seen)
+		case *types.Map:
+			if r := loose(x.Key(), seen); r != "" {
+				return r
+			}
+			return loose(x.Elem(), seen)
+		case *types.Chan:
+			return "chan"
+		case *types.Signature:
+			return "func"
+		case *types.Interface:
+			return "interface"
+		case *types.Struct:
+			for i := 0; i < x.NumFields(); i++ {
+				if r := loose(x.Field(i).Type(), seen); r != "" {
+					return r
+				}
+			}
+		}
+		return ""
+	}
+	for _, g := range ssaGlobals {
+		t := g.Type().(*types.Pointer).Elem()
+		globals = append(globals, gl{a.globalName(g), a.typeString(t)})
+		if r := strict(t, map[types.Type]bool{}); r != "" {
+			writes = append(writes, fmt.Sprintf("%s stateful-type %s %s", "package", a.globalName(g), r))
+		} else if r := loose(t, map[types.Type]bool{}); r != "" {
+			statefulL = append(statefulL, fmt.Sprintf("%s: %s", a.globalName(g), r))
+		}
+	}
+
+	// ---- files of the root directory excluded by build constraints
+	var ignored []string
+	for _, f := range root.IgnoredFiles {
+		b := filepath.Base(f)
+		if strings.HasSuffix(b, ".go") && !strings.HasSuffix(b, "_test.go") {
+			ignored = append(ignored, b)
+		}
+	}
+	sort.Strings(ignored)
+
+	sort.Strings(writes)
+	writes = uniq(writes)
+	sort.Strings(handovers)
+	sort.Strings(statefulL)
+	for _, g := range globals {
+		fmt.Printf("global %s\t%s\n", g.name, g.typ)
+	}
+	for _, p := range internal {
+		fmt.Println("internal", a.relPkg(p.PkgPath))
+	}
+	for _, f := range ignored {
+		fmt.Println("ignored", f)
+	}
+	for _, l := range writes {
 		fmt.Println("write", l)
 	}
+	for _, l := range handovers {
+		fmt.Println("handover", l)
+	}
+	for _, l := range statefulL {
+		fmt.Println("stateful", l)
+	}
+}
+
+func inPlaceBaseField(ia *ssa.IndexAddr) (*ssa.FieldAddr, bool) {
+	var v ssa.Value = ia
+	for {
+		switch x := v.(type) {
+		case *ssa.FieldAddr:
+			return x, true
+		case *ssa.IndexAddr:
+			if _, isPtr := x.X.Type().Underlying().(*types.Pointer); isPtr {
+				v = x.X
+				continue
+			}
+		}
+		return nil, false
+	}
+}
+
+func uniq(s []string) []string {
+	var out []string
+	for i, x := range s {
+		if i == 0 || x != s[i-1] {
+			out = append(out, x)
+		}
+	}
+	return out
 }
